@@ -1,7 +1,813 @@
-//! C07 — not built yet.
-use vcore::Ctx;
+//! C07 — built-in scalar types accept exactly their domain and round-trip.
+//!
+//! Observed at the public trait API: `InputType::parse(Some(value) | None)` and `InputType::to_value`.
+//! The oracle is a per-type domain predicate evaluated in i128 / on IEEE bits (`Model::expect`), written from
+//! the Rust type's value set and the GraphQL input-coercion rules, never from the crate's range checks.
+use async_graphql::{Enum, InputType, Name, Number, Pos, Value, ID};
+use indexmap::IndexMap;
+use std::cell::Cell;
+use std::fmt::Debug;
+use std::num::{
+    NonZeroI16, NonZeroI32, NonZeroI64, NonZeroI8, NonZeroIsize, NonZeroU16, NonZeroU32, NonZeroU64, NonZeroU8, NonZeroUsize,
+};
+use std::time::Instant;
+use vcore::drive::catch;
+use vcore::gens::{gen_char, gen_f64_finite, gen_i64, gen_string};
+use vcore::{Case, Ctx, Src};
 
-pub fn run(_ctx: &mut Ctx) {
-    eprintln!("C07: check not built yet");
-    std::process::exit(2);
+/// f32 accepts finite numbers whose nearest f32 is infinite (result ±inf)
+const F1: &str = "C07-F1";
+/// NaN / ±inf serialize to null, which does not coerce back
+const F2: &str = "C07-F2";
+
+#[derive(Enum, Copy, Clone, Eq, PartialEq, Debug)]
+enum Color {
+    Red,
+    Green,
+    DarkBlue,
+    #[graphql(name = "custom_NAME")]
+    Renamed,
+}
+/// documented naming rule of `#[derive(Enum)]`: SCREAMING_SNAKE_CASE unless renamed
+const COLOR: [(&str, Color); 4] = [("RED", Color::Red), ("GREEN", Color::Green), ("DARK_BLUE", Color::DarkBlue), ("custom_NAME", Color::Renamed)];
+
+/// item names that are prefixes of one another
+#[derive(Enum, Copy, Clone, Eq, PartialEq, Debug)]
+enum Pfx {
+    #[graphql(name = "A")]
+    A,
+    #[graphql(name = "AB")]
+    Ab,
+    #[graphql(name = "ABC")]
+    Abc,
+}
+const PFX: [(&str, Pfx); 3] = [("A", Pfx::A), ("AB", Pfx::Ab), ("ABC", Pfx::Abc)];
+
+/// what is offered to `parse`: `None` = undefined
+type Offer = Option<Value>;
+
+enum Expect<T> {
+    /// the value denotes exactly this Rust value
+    Accept(T),
+    /// the value denotes no value of the type
+    Reject,
+    /// class the statement leaves open: an error, or one of these values
+    Either(Vec<T>),
+    /// class the statement leaves open and for which no exact value is defined: no demand
+    Open,
+}
+
+#[derive(Clone, Copy)]
+struct Flags {
+    f1: bool,
+    f2: bool,
+}
+
+trait Model: InputType + Clone + Debug + 'static {
+    const NAME: &'static str;
+    fn expect(o: &Offer) -> Expect<Self>;
+    fn same(&self, o: &Self) -> bool;
+    /// integer types: the value of the type that equals `n` (exact arithmetic), if there is one
+    fn from_i128(_n: i128) -> Option<Self> {
+        None
+    }
+    /// f32 only: the offered finite number rounds to an infinite f32
+    fn overflows(_o: &Offer) -> Option<Self> {
+        None
+    }
+    fn non_finite(&self) -> bool {
+        false
+    }
+}
+
+/// integer denoted by a number that is written without fraction / exponent
+fn num_int(n: &Number) -> Option<i128> {
+    if n.is_f64() {
+        None
+    } else if let Some(i) = n.as_i64() {
+        Some(i as i128)
+    } else {
+        n.as_u64().map(|u| u as i128)
+    }
+}
+
+fn int_expect<T: Model>(o: &Offer) -> Expect<T> {
+    match o {
+        Some(Value::Number(n)) => match num_int(n) {
+            Some(i) => match T::from_i128(i) {
+                Some(x) => Expect::Accept(x),
+                None => Expect::Reject,
+            },
+            None => {
+                let f = n.as_f64().unwrap();
+                // integral floats are the open class (5.0 offered to Int); an integral float outside the
+                // domain, or a fractional one, denotes no value of the type under any reading
+                if f.fract() == 0.0 && f.abs() < 1e30 {
+                    match T::from_i128(f as i128) {
+                        Some(x) => Expect::Either(vec![x]),
+                        None => Expect::Reject,
+                    }
+                } else {
+                    Expect::Reject
+                }
+            }
+        },
+        _ => Expect::Reject,
+    }
+}
+
+macro_rules! int_model {
+    ($($t:ty),*) => {$(
+        impl Model for $t {
+            const NAME: &'static str = stringify!($t);
+            fn expect(o: &Offer) -> Expect<Self> { int_expect::<Self>(o) }
+            fn same(&self, o: &Self) -> bool { self == o }
+            fn from_i128(n: i128) -> Option<Self> { <$t>::try_from(n).ok() }
+        }
+    )*};
+}
+macro_rules! nz_model {
+    ($($t:ident / $p:ty),*) => {$(
+        impl Model for $t {
+            const NAME: &'static str = stringify!($t);
+            fn expect(o: &Offer) -> Expect<Self> { int_expect::<Self>(o) }
+            fn same(&self, o: &Self) -> bool { self == o }
+            fn from_i128(n: i128) -> Option<Self> { <$p>::try_from(n).ok().and_then(<$t>::new) }
+        }
+    )*};
+}
+int_model!(i8, u8, i16, u16, i32, u32, i64, u64, isize, usize);
+nz_model!(NonZeroI8 / i8, NonZeroU8 / u8, NonZeroI16 / i16, NonZeroU16 / u16, NonZeroI32 / i32, NonZeroU32 / u32,
+          NonZeroI64 / i64, NonZeroU64 / u64, NonZeroIsize / isize, NonZeroUsize / usize);
+
+impl Model for f64 {
+    const NAME: &'static str = "f64";
+    fn expect(o: &Offer) -> Expect<Self> {
+        match o {
+            Some(Value::Number(n)) => match num_int(n) {
+                // Float input coercion accepts integers; one that f64 cannot hold exactly is open (nearest or error)
+                Some(i) => {
+                    let f = i as f64;
+                    if f as i128 == i {
+                        Expect::Accept(f)
+                    } else {
+                        Expect::Either(vec![f])
+                    }
+                }
+                None => Expect::Accept(n.as_f64().unwrap()),
+            },
+            _ => Expect::Reject,
+        }
+    }
+    fn same(&self, o: &Self) -> bool {
+        self.to_bits() == o.to_bits() || (self.is_nan() && o.is_nan())
+    }
+    fn non_finite(&self) -> bool {
+        !self.is_finite()
+    }
+}
+impl Model for f32 {
+    const NAME: &'static str = "f32";
+    fn expect(o: &Offer) -> Expect<Self> {
+        match o {
+            Some(Value::Number(n)) => match num_int(n) {
+                Some(i) => {
+                    let direct = i as f32;
+                    if direct as i128 == i && direct.is_finite() {
+                        Expect::Accept(direct)
+                    } else {
+                        Expect::Either(vec![direct, (i as f64) as f32])
+                    }
+                }
+                None => {
+                    let f = n.as_f64().unwrap();
+                    let r = f as f32; // IEEE round-to-nearest-even, overflow to infinity
+                    if r.is_infinite() {
+                        Expect::Reject // no finite f32 is near this number
+                    } else if (r as f64).to_bits() == f.to_bits() {
+                        Expect::Accept(r)
+                    } else {
+                        Expect::Either(vec![r]) // not an f32 value; rounding it is the open class
+                    }
+                }
+            },
+            _ => Expect::Reject,
+        }
+    }
+    fn same(&self, o: &Self) -> bool {
+        self.to_bits() == o.to_bits() || (self.is_nan() && o.is_nan())
+    }
+    fn overflows(o: &Offer) -> Option<Self> {
+        match o {
+            Some(Value::Number(n)) if n.is_f64() => {
+                let r = n.as_f64().unwrap() as f32;
+                if r.is_infinite() {
+                    Some(r)
+                } else {
+                    None
+                }
+            }
+            _ => None,
+        }
+    }
+    fn non_finite(&self) -> bool {
+        !self.is_finite()
+    }
+}
+impl Model for bool {
+    const NAME: &'static str = "bool";
+    fn expect(o: &Offer) -> Expect<Self> {
+        match o {
+            Some(Value::Boolean(b)) => Expect::Accept(*b),
+            _ => Expect::Reject,
+        }
+    }
+    fn same(&self, o: &Self) -> bool {
+        self == o
+    }
+}
+impl Model for String {
+    const NAME: &'static str = "String";
+    fn expect(o: &Offer) -> Expect<Self> {
+        match o {
+            Some(Value::String(s)) => Expect::Accept(s.clone()),
+            _ => Expect::Reject,
+        }
+    }
+    fn same(&self, o: &Self) -> bool {
+        self == o
+    }
+}
+impl Model for char {
+    const NAME: &'static str = "char";
+    fn expect(o: &Offer) -> Expect<Self> {
+        match o {
+            Some(Value::String(s)) => {
+                let mut it = s.chars();
+                match (it.next(), it.next()) {
+                    (Some(c), None) => Expect::Accept(c),
+                    _ => Expect::Reject,
+                }
+            }
+            _ => Expect::Reject,
+        }
+    }
+    fn same(&self, o: &Self) -> bool {
+        self == o
+    }
+}
+impl Model for ID {
+    const NAME: &'static str = "ID";
+    fn expect(o: &Offer) -> Expect<Self> {
+        match o {
+            Some(Value::String(s)) => Expect::Accept(ID(s.clone())),
+            Some(Value::Number(n)) => match num_int(n) {
+                Some(i) if i >= i64::MIN as i128 && i <= i64::MAX as i128 => Expect::Accept(ID(i.to_string())),
+                Some(i) => Expect::Either(vec![ID(i.to_string())]),
+                None => {
+                    let f = n.as_f64().unwrap();
+                    if f.fract() == 0.0 {
+                        Expect::Open
+                    } else {
+                        Expect::Reject
+                    }
+                }
+            },
+            _ => Expect::Reject,
+        }
+    }
+    fn same(&self, o: &Self) -> bool {
+        self.0 == o.0
+    }
+}
+fn enum_expect<T: Copy>(o: &Offer, items: &[(&str, T)]) -> Expect<T> {
+    let find = |s: &str| items.iter().find(|(n, _)| *n == s).map(|(_, v)| *v);
+    match o {
+        Some(Value::Enum(n)) => match find(n.as_str()) {
+            Some(v) => Expect::Accept(v),
+            None => Expect::Reject,
+        },
+        // a string is how an enum arrives in JSON variables, but is not an enum literal: open when it names an item
+        Some(Value::String(s)) => match find(s) {
+            Some(v) => Expect::Either(vec![v]),
+            None => Expect::Reject,
+        },
+        _ => Expect::Reject,
+    }
+}
+impl Model for Color {
+    const NAME: &'static str = "Color";
+    fn expect(o: &Offer) -> Expect<Self> {
+        enum_expect(o, &COLOR)
+    }
+    fn same(&self, o: &Self) -> bool {
+        self == o
+    }
+}
+impl Model for Pfx {
+    const NAME: &'static str = "Pfx";
+    fn expect(o: &Offer) -> Expect<Self> {
+        enum_expect(o, &PFX)
+    }
+    fn same(&self, o: &Self) -> bool {
+        self == o
+    }
+}
+
+fn render(o: &Offer) -> String {
+    match o {
+        None => "<undefined>".into(),
+        Some(v) => v.to_string(),
+    }
+}
+
+fn kind(o: &Offer) -> &'static str {
+    match o {
+        None => "undefined",
+        Some(Value::Null) => "null",
+        Some(Value::Number(n)) if n.is_f64() => "float",
+        Some(Value::Number(_)) => "int",
+        Some(Value::String(_)) => "string",
+        Some(Value::Boolean(_)) => "boolean",
+        Some(Value::Enum(_)) => "enum",
+        Some(Value::List(_)) => "list",
+        Some(Value::Object(_)) => "object",
+        Some(Value::Binary(_)) => "binary",
+    }
+}
+
+/// one coercion: offer `o` to `T`, compare with the model
+fn offer<T: Model>(o: &Offer, fl: Flags) -> Case {
+    let text = format!("{} <- {}", T::NAME, render(o));
+    let exp = T::expect(o);
+    let got = match catch(|| T::parse(o.clone())) {
+        Ok(r) => r.map_err(|e| e.into_server_error(Pos::default()).message),
+        Err(p) => return Case::fail(text, format!("parse panicked: {}", p)),
+    };
+    let k = kind(o);
+    let (label, nontrivial) = match &exp {
+        Expect::Accept(_) => (format!("{}:accept", k), false),
+        Expect::Reject => (format!("{}:reject", k), true),
+        Expect::Either(_) | Expect::Open => (format!("{}:open-class", k), true),
+    };
+    let c = match (exp, got) {
+        (Expect::Accept(x), Ok(y)) if x.same(&y) => Case::pass(text),
+        (Expect::Accept(x), Ok(y)) => Case::fail(text, format!("accepted as {:?}, the value denotes {:?}", y, x)),
+        (Expect::Accept(x), Err(e)) => Case::fail(text, format!("rejected ({}), the value denotes {:?}", e, x)),
+        (Expect::Reject, Err(_)) => Case::pass(text),
+        (Expect::Reject, Ok(y)) => match T::overflows(o) {
+            Some(q) if fl.f1 && q.same(&y) => Case::known(text, vec![F1.into()]),
+            _ => Case::fail(text, format!("accepted as {:?}, the value denotes no value of {}", y, T::NAME)),
+        },
+        (Expect::Either(_), Err(_)) | (Expect::Open, _) => Case::pass(text),
+        (Expect::Either(xs), Ok(y)) => {
+            if xs.iter().any(|x| x.same(&y)) {
+                Case::pass(text)
+            } else {
+                Case::fail(text, format!("accepted as {:?}, but if accepted it must be {:?}", y, xs))
+            }
+        }
+    };
+    c.nontrivial(nontrivial).class(label)
+}
+
+/// round trip: parse(to_value(x)) == x
+fn rt<T: Model>(x: &T, fl: Flags) -> Case {
+    let text = format!("{} roundtrip {:?}", T::NAME, x);
+    let r = catch(|| {
+        let v = x.to_value();
+        let back = T::parse(Some(v.clone())).map_err(|e| e.into_server_error(Pos::default()).message);
+        (v, back)
+    });
+    let c = match r {
+        Err(p) => Case::fail(text, format!("panicked: {}", p)),
+        Ok((_, Ok(y))) if x.same(&y) => Case::pass(text),
+        Ok((v, Ok(y))) => Case::fail(text, format!("serialized as {}, which coerces to {:?}", v, y)),
+        Ok((v, Err(e))) => {
+            if fl.f2 && x.non_finite() && v == Value::Null {
+                Case::known(text, vec![F2.into()])
+            } else {
+                Case::fail(text, format!("serialized as {}, which is rejected: {}", v, e))
+            }
+        }
+    };
+    c.nontrivial(true).class("roundtrip")
+}
+
+struct Ty {
+    name: &'static str,
+    offer: fn(&Offer, Flags) -> Case,
+    /// round-trip the value of the type equal to this integer, if any
+    rt_int: fn(i128, Flags) -> Option<Case>,
+}
+fn ty<T: Model>() -> Ty {
+    Ty { name: T::NAME, offer: offer::<T>, rt_int: |n, fl| T::from_i128(n).map(|x| rt::<T>(&x, fl)) }
+}
+fn small_types() -> Vec<Ty> {
+    vec![ty::<i8>(), ty::<u8>(), ty::<i16>(), ty::<u16>(), ty::<NonZeroI8>(), ty::<NonZeroU8>(), ty::<NonZeroI16>(), ty::<NonZeroU16>()]
+}
+fn wide_types() -> Vec<Ty> {
+    vec![
+        ty::<i32>(), ty::<u32>(), ty::<i64>(), ty::<u64>(), ty::<isize>(), ty::<usize>(),
+        ty::<NonZeroI32>(), ty::<NonZeroU32>(), ty::<NonZeroI64>(), ty::<NonZeroU64>(), ty::<NonZeroIsize>(), ty::<NonZeroUsize>(),
+    ]
+}
+fn other_types() -> Vec<Ty> {
+    vec![ty::<f32>(), ty::<f64>(), ty::<bool>(), ty::<String>(), ty::<char>(), ty::<ID>(), ty::<Color>(), ty::<Pfx>()]
+}
+
+fn int_value(n: i128) -> Option<Value> {
+    if n >= 0 {
+        u64::try_from(n).ok().map(|u| Value::Number(Number::from(u)))
+    } else {
+        i64::try_from(n).ok().map(|i| Value::Number(Number::from(i)))
+    }
+}
+fn float_value(f: f64) -> Value {
+    Value::Number(Number::from_f64(f).expect("finite"))
+}
+
+/// every integer boundary of every width, its neighbours, and values only a float can carry
+fn boundaries() -> Vec<i128> {
+    let mut out = vec![];
+    for k in 0..=64u32 {
+        for d in -3..=3i128 {
+            out.push((1i128 << k) + d);
+            out.push(-(1i128 << k) + d);
+        }
+    }
+    let mut p = 1i128;
+    for _ in 0..20 {
+        out.push(p);
+        out.push(-p);
+        out.push(p + 1);
+        out.push(p - 1);
+        p *= 10;
+    }
+    out.extend([(1i128 << 53) + 1, (1 << 24) + 1, (1 << 64) + 2048, -(1 << 63) - 2048, 1 << 100]);
+    out.sort();
+    out.dedup();
+    out
+}
+
+fn f64_classes() -> Vec<f64> {
+    let f32max = f32::MAX as f64;
+    let half_ulp = 2f64.powi(127 - 24); // half an f32 ulp at the top binade
+    let mut v = vec![
+        0.0, -0.0, 5e-324, -5e-324, f64::MIN_POSITIVE, 2.2250738585072009e-308, f64::EPSILON, 0.1, -0.1, 0.5, 1.5, -1.5, 2.5, 1.0, -1.0, 3.0, 127.0, 128.0,
+        -128.0, -129.0, 255.0, 256.0, 32767.0, 32768.0, 65535.0, 65536.0, 2147483647.0, 2147483648.0, -2147483648.0, -2147483649.0, 4294967295.0,
+        4294967296.0, 127.5, 255.5, 9007199254740992.0, 9007199254740994.0, 9223372036854775808.0, -9223372036854775808.0, 18446744073709551616.0,
+        1e19, 1e21, 1e300, -1e300, f64::MAX, f64::MIN,
+        // f32 classes: subnormal / smallest normal / exact / top of range / first value that rounds to infinity
+        1e-45, 1.401298464324817e-45, 1e-46, 1.1754943508222875e-38, 1e-39, 16777216.0, 16777217.0, f32max, -f32max,
+        f32max + half_ulp / 2.0, f32max + half_ulp, -(f32max + half_ulp), f32max + half_ulp * 2.0, 2f64.powi(128), 3.5e38, -3.5e38, 1e39,
+    ];
+    // the f64 just below the round-to-infinity midpoint still rounds to f32::MAX
+    v.push(f64::from_bits((f32max + half_ulp).to_bits() - 1));
+    v
+}
+
+fn obj(pairs: &[(&str, Value)]) -> Value {
+    let mut m = IndexMap::new();
+    for (k, v) in pairs {
+        m.insert(Name::new(*k), v.clone());
+    }
+    Value::Object(m)
+}
+
+/// values of every GraphQL kind (and undefined), including near misses for each scalar
+fn kind_offers() -> Vec<Offer> {
+    let i = |n: i64| Value::Number(Number::from(n));
+    let s = |t: &str| Value::String(t.to_string());
+    let e = |t: &str| Value::Enum(Name::new(t));
+    let mut v: Vec<Offer> = vec![None, Some(Value::Null), Some(Value::Boolean(true)), Some(Value::Boolean(false))];
+    for n in [0, 1, -1, 5, 255, 256, 65536] {
+        v.push(Some(i(n)));
+    }
+    for f in [0.0, -0.0, 1.0, 1.5, -1.0, 5.0, 1e300] {
+        v.push(Some(float_value(f)));
+    }
+    for t in ["", "a", "ab", "0", "1", "-1", "1.5", "true", "false", "null", "é", "😀", "e\u{301}", " ", "a ", "RED", "GREEN", "DARK_BLUE", "custom_NAME", "red", "Red", "RE", "REDX", "DarkBlue", "DARKBLUE", "CUSTOM_NAME", "Renamed", "RENAMED", "A", "AB", "ABC", "ABCD", "a", "Ab", "B"] {
+        v.push(Some(s(t)));
+    }
+    for t in ["RED", "GREEN", "DARK_BLUE", "custom_NAME", "red", "Red", "RE", "R", "REDX", "RED_", "DarkBlue", "DARKBLUE", "DARK", "CUSTOM_NAME", "Renamed", "RENAMED", "A", "AB", "ABC", "ABCD", "ABD", "a", "Ab", "B", "BA", "x", "_"] {
+        v.push(Some(e(t)));
+    }
+    for l in [vec![], vec![i(1)], vec![i(0)], vec![s("a")], vec![s("1")], vec![Value::Boolean(true)], vec![e("RED")], vec![e("A")], vec![float_value(1.5)], vec![Value::Null], vec![Value::List(vec![i(1)])], vec![i(1), i(2)]] {
+        v.push(Some(Value::List(l)));
+    }
+    for o in [obj(&[]), obj(&[("a", i(1))]), obj(&[("value", i(1))]), obj(&[("RED", e("RED"))]), obj(&[("a", s("a"))])] {
+        v.push(Some(o));
+    }
+    v
+}
+
+fn gen_number(s: &mut dyn Src, bounds: &[i128]) -> Value {
+    match s.weighted(&[3, 3, 2, 3, 2, 2]) {
+        0 => Value::Number(Number::from(gen_i64(s))),
+        1 => {
+            // a boundary of some width, +- a small delta, as an integer when a Number can carry it
+            let b = bounds[s.choose(bounds.len())] + s.range(-2, 2) as i128;
+            int_value(b).unwrap_or_else(|| float_value(b as f64))
+        }
+        2 => Value::Number(Number::from(match s.choose(3) {
+            0 => i64::MAX as u64 + 1 + s.choose(4) as u64,
+            1 => u64::MAX - s.choose(4) as u64,
+            _ => s.u64(),
+        })),
+        3 => {
+            // integral float at / next to a boundary
+            let b = bounds[s.choose(bounds.len())] + s.range(-2, 2) as i128;
+            float_value(b as f64)
+        }
+        4 => {
+            // fractional float next to a small boundary
+            let b = [0i64, 1, -1, 127, 128, -128, 255, 32767, 65535, 2147483647, -2147483648][s.choose(11)];
+            float_value(b as f64 + [0.5, -0.5, 0.25, 1e-9][s.choose(4)])
+        }
+        _ => float_value(gen_f64_finite(s)),
+    }
+}
+
+pub fn run(ctx: &mut Ctx) {
+    ctx.rule = "InputType::parse / to_value of every built-in scalar mapping (i8..u64, isize, usize, their NonZero forms, f32, f64, bool, String, \
+                char, ID, two derived enums). Streams: every integer in -70000..=70000 offered to the eight 8/16-bit types (exhaustive), every \
+                value of those types round-tripped, width boundaries +-3 (as integers and as integral floats) and float classes offered to \
+                every type, every ASCII character and random Unicode, values of every GraphQL kind (and undefined) offered to every type, \
+                random boundary-dense numbers for the 32/64-bit types. Non-trivial = the model says reject, or the value is in an open \
+                class, or the case is a round trip; distinct by type + rendered value"
+        .into();
+    ctx.assume("open class (either an error, or exactly the integer): integral floats (5.0, -0.0, 2^63 as float) offered to integer types");
+    ctx.assume("open class (either an error, or exactly the decimal string): integers beyond the i64 range offered to ID; integral floats offered to ID carry no demand at all");
+    ctx.assume("open class (either an error, or exactly the item): a String that spells an enum item name offered to an enum (that is how enums arrive in JSON variables); a String that spells no item must be rejected");
+    ctx.assume("open class (either an error, or the correctly rounded value): integers that f64 / f32 cannot hold exactly, and finite non-f32 numbers offered to f32 whose nearest f32 is finite");
+    ctx.assume("numbers are serde_json numbers without arbitrary precision: integers outside i64::MIN..=u64::MAX can only be offered as floats; NaN / infinity cannot be offered at all, they occur only as Rust values in the round-trip direction");
+    ctx.assume("Value::Binary is not a GraphQL value kind and is not offered");
+    ctx.assume("usize / isize are 64 bits wide on the build target");
+    ctx.assume("only the trait API is observed; the registry-level `is_valid` pre-check of strict validation (shared by every type named Int) is outside this check");
+    let fl = Flags { f1: ctx.open(F1), f2: ctx.open(F2) };
+    let small = small_types();
+    let wide = wide_types();
+    let other = other_types();
+    let bounds = boundaries();
+
+    // ---- 1. exhaustive: every integer in -70000..=70000 to the 8/16-bit types; every value round-tripped
+    let t0 = Instant::now();
+    let mut n_ex = 0u64;
+    let reach = 70_000i128;
+    for t in &small {
+        // by increasing magnitude, so that the first failing case is the smallest
+        for m in 0..=reach {
+            for n in if m == 0 { vec![0] } else { vec![m, -m] } {
+                n_ex += 1;
+                if ctx.check_case("small-int-exhaustive", (t.offer)(&int_value(n), fl), serde_json::json!({"type": t.name, "n": n as i64})) {
+                    return;
+                }
+                if let Some(c) = (t.rt_int)(n, fl) {
+                    n_ex += 1;
+                    if ctx.check_case("small-int-exhaustive", c, serde_json::json!({"type": t.name, "roundtrip": n as i64})) {
+                        return;
+                    }
+                }
+            }
+        }
+    }
+    ctx.enumerated("small-int-exhaustive", n_ex, true, t0);
+    ctx.exhaustive = Some(true);
+
+    // ---- 2. every GraphQL kind (and undefined) to every type
+    let t0 = Instant::now();
+    let mut n_k = 0u64;
+    let kinds = kind_offers();
+    for t in small.iter().chain(&wide).chain(&other) {
+        for o in &kinds {
+            if fl.f1 && t.name == "f32" && f32::overflows(o).is_some() {
+                ctx.excluded(F1);
+                continue;
+            }
+            n_k += 1;
+            if ctx.check_case("kinds", (t.offer)(o, fl).class("kinds"), serde_json::json!({"type": t.name})) {
+                return;
+            }
+        }
+    }
+    ctx.enumerated("kinds", n_k, true, t0);
+
+    // ---- 3. width boundaries (integer and integral-float form) and float classes to every type
+    let t0 = Instant::now();
+    let mut n_b = 0u64;
+    let fclasses = f64_classes();
+    for t in small.iter().chain(&wide).chain(&other) {
+        let mut offers: Vec<Value> = vec![];
+        for b in &bounds {
+            offers.extend(int_value(*b));
+            offers.push(float_value(*b as f64));
+            offers.push(float_value(*b as f64 + 0.5));
+        }
+        offers.extend(fclasses.iter().map(|f| float_value(*f)));
+        for v in offers {
+            let o = Some(v);
+            if fl.f1 && t.name == "f32" && f32::overflows(&o).is_some() {
+                ctx.excluded(F1);
+                continue;
+            }
+            n_b += 1;
+            if ctx.check_case("boundaries", (t.offer)(&o, fl).class("boundaries"), serde_json::json!({"type": t.name})) {
+                return;
+            }
+        }
+        for b in &bounds {
+            if let Some(c) = (t.rt_int)(*b, fl) {
+                n_b += 1;
+                if ctx.check_case("boundaries", c, serde_json::json!({"type": t.name})) {
+                    return;
+                }
+            }
+        }
+    }
+    ctx.enumerated("boundaries", n_b, true, t0);
+
+    // ---- 4. every ASCII character: alone, doubled, followed by a combining mark; to every type; round trips
+    let t0 = Instant::now();
+    let mut n_c = 0u64;
+    for cp in 0u32..128 {
+        let c = char::from_u32(cp).unwrap();
+        for s in [c.to_string(), format!("{c}{c}"), format!("{c}\u{301}")] {
+            let o = Some(Value::String(s));
+            for t in small.iter().chain(&wide).chain(&other) {
+                n_c += 1;
+                if ctx.check_case("ascii", (t.offer)(&o, fl).class("ascii"), serde_json::json!({"type": t.name, "codepoint": cp})) {
+                    return;
+                }
+            }
+        }
+        for case in [rt(&c, fl), rt(&c.to_string(), fl), rt(&ID(c.to_string()), fl)] {
+            n_c += 1;
+            if ctx.check_case("ascii", case, serde_json::json!({"codepoint": cp})) {
+                return;
+            }
+        }
+    }
+    // round trips of the finite value sets and of the float classes
+    let mut cases = vec![rt(&true, fl), rt(&false, fl), rt(&String::new(), fl), rt(&ID(String::new()), fl), rt(&ID("18446744073709551616".into()), fl), rt(&ID("1.0".into()), fl)];
+    cases.extend(COLOR.iter().map(|(_, v)| rt(v, fl)));
+    cases.extend(PFX.iter().map(|(_, v)| rt(v, fl)));
+    for f in &fclasses {
+        cases.push(rt(f, fl));
+        let g = *f as f32;
+        if g.is_finite() {
+            cases.push(rt(&g, fl));
+        }
+    }
+    for case in cases {
+        n_c += 1;
+        if ctx.check_case("ascii", case, serde_json::Value::Null) {
+            return;
+        }
+    }
+    ctx.enumerated("ascii", n_c, true, t0);
+
+    // ---- 5. known-finding probes (the constructs the streams above and below leave out while a finding is open)
+    let f32t = ty::<f32>();
+    for f in [3.5e38, -3.5e38, 1e39, 1e300, -1e300, f64::MAX, f32::MAX as f64 + 2f64.powi(103), 2f64.powi(128)] {
+        if ctx.check_case("probe-f32-overflow", (f32t.offer)(&Some(float_value(f)), fl).class("f32:beyond-range"), serde_json::json!({"value": f})) {
+            return;
+        }
+    }
+    let nan_payload = f64::from_bits(0x7ff8_0000_0000_1234);
+    for case in [rt(&f64::NAN, fl), rt(&-f64::NAN, fl), rt(&nan_payload, fl), rt(&f64::INFINITY, fl), rt(&f64::NEG_INFINITY, fl), rt(&f32::NAN, fl), rt(&f32::INFINITY, fl), rt(&f32::NEG_INFINITY, fl)] {
+        if ctx.check_case("probe-non-finite-roundtrip", case.class("float:non-finite"), serde_json::Value::Null) {
+            return;
+        }
+    }
+
+    // ---- 6. random: boundary-dense numbers to the 32/64-bit integer types, floats and ID
+    let n = ctx.tier.pick(600_000, 12_500_000);
+    let numeric: Vec<Ty> = wide_types().into_iter().chain([ty::<f32>(), ty::<f64>(), ty::<ID>(), ty::<i16>(), ty::<NonZeroU8>()]).collect();
+    let skipped = Cell::new(0u64);
+    ctx.stream("wide-numbers", n, 8, |s| {
+        let t = &numeric[s.choose(numeric.len())];
+        let mut o = Some(gen_number(s, &bounds));
+        if fl.f1 && t.name == "f32" && f32::overflows(&o).is_some() {
+            skipped.set(skipped.get() + 1);
+            o = Some(float_value(1.5));
+        }
+        (t.offer)(&o, fl).class("random-number")
+    });
+    for _ in 0..skipped.get() {
+        ctx.excluded(F1);
+    }
+    if ctx.violations() > 0 {
+        return;
+    }
+
+    // random integer round trips for the wide types
+    ctx.stream("wide-roundtrip", n / 2, 6, |s| {
+        let t = &numeric[s.choose(12)];
+        let v: i128 = match s.choose(3) {
+            0 => gen_i64(s) as i128,
+            1 => bounds[s.choose(bounds.len())] + s.range(-2, 2) as i128,
+            _ => s.u64() as i128,
+        };
+        match (t.rt_int)(v, fl) {
+            Some(c) => c,
+            // not a value of the drawn type: offer it instead (must be rejected)
+            None => (t.offer)(&int_value(v).or_else(|| Some(float_value(v as f64))), fl).class("random-number"),
+        }
+    });
+    if ctx.violations() > 0 {
+        return;
+    }
+
+    // random float round trips (every bit pattern class); non-finite ones are C07-F2's construct
+    let skipped = Cell::new(0u64);
+    ctx.stream("float-roundtrip", n / 2, 4, |s| {
+        if s.bool() {
+            let mut f = match s.choose(3) {
+                0 => gen_f64_finite(s),
+                _ => f64::from_bits(s.u64()),
+            };
+            if fl.f2 && !f.is_finite() {
+                skipped.set(skipped.get() + 1);
+                f = f64::from_bits(f.to_bits() & !(1u64 << 62));
+            }
+            rt(&f, fl).class_if(!f.is_finite(), "float:non-finite").class_if(f.is_finite() && !f.is_normal() && f != 0.0, "float:subnormal")
+        } else {
+            let mut f = match s.choose(3) {
+                0 => gen_f64_finite(s) as f32,
+                _ => f32::from_bits(s.raw()),
+            };
+            if fl.f2 && !f.is_finite() {
+                skipped.set(skipped.get() + 1);
+                f = f32::from_bits(f.to_bits() & !(1u32 << 30));
+            }
+            rt(&f, fl).class_if(!f.is_finite(), "float:non-finite").class_if(f.is_finite() && !f.is_normal() && f != 0.0, "float:subnormal")
+        }
+    });
+    for _ in 0..skipped.get() {
+        ctx.excluded(F2);
+    }
+    if ctx.violations() > 0 {
+        return;
+    }
+
+    // ---- 7. random Unicode: single scalars and strings to char / String / ID / enums / a few non-string types
+    let texty: Vec<Ty> = vec![ty::<char>(), ty::<String>(), ty::<ID>(), ty::<Color>(), ty::<Pfx>(), ty::<bool>(), ty::<i32>(), ty::<f64>()];
+    ctx.stream("unicode", n / 2, 24, |s| {
+        let text = match s.choose(4) {
+            0 => gen_char(s).to_string(),
+            1 => gen_string(s, 4),
+            2 => {
+                // an enum item name, possibly damaged by one edit
+                let base = ["RED", "GREEN", "DARK_BLUE", "custom_NAME", "A", "AB", "ABC"][s.choose(7)].to_string();
+                let mut cs: Vec<char> = base.chars().collect();
+                match s.choose(4) {
+                    0 => {}
+                    1 => {
+                        cs.pop();
+                    }
+                    2 => cs.push(gen_char(s)),
+                    _ => {
+                        let i = s.choose(cs.len());
+                        cs[i] = cs[i].to_ascii_lowercase();
+                    }
+                }
+                cs.into_iter().collect()
+            }
+            _ => loop {
+                // uniformly drawn scalar value
+                if let Some(c) = char::from_u32(s.range(0, 0x10ffff) as u32) {
+                    break c.to_string();
+                }
+            },
+        };
+        let nchars = text.chars().count();
+        let t = &texty[s.choose(texty.len())];
+        // enum-kind offers need a valid GraphQL name
+        let is_name = !text.is_empty() && text.chars().enumerate().all(|(i, c)| c == '_' || c.is_ascii_alphabetic() || (i > 0 && c.is_ascii_digit()));
+        let o = if is_name && s.bool() { Some(Value::Enum(Name::new(&text))) } else { Some(Value::String(text.clone())) };
+        let c = (t.offer)(&o, fl);
+        c.class_if(nchars == 1 && !text.is_ascii(), "char:single-non-ascii").class_if(nchars > 1, "char:multi").class_if(nchars == 0, "char:empty")
+    });
+    if ctx.violations() > 0 {
+        return;
+    }
+    ctx.stream("unicode-roundtrip", n / 4, 24, |s| match s.choose(3) {
+        0 => rt(&gen_char(s), fl),
+        1 => rt(&gen_string(s, 6), fl),
+        _ => rt(&ID(gen_string(s, 6)), fl),
+    });
+
+    ctx.floor("int:accept", 100_000);
+    ctx.floor("int:reject", 100_000);
+    ctx.floor("float:open-class", 1_000);
+    ctx.floor("float:reject", 5_000);
+    ctx.floor("string:reject", 5_000);
+    ctx.floor("enum:reject", 500);
+    ctx.floor("enum:accept", 50);
+    ctx.floor("undefined:reject", 20);
+    ctx.floor("roundtrip", 200_000);
+    ctx.floor("char:single-non-ascii", 2_000);
+    ctx.floor("char:multi", 2_000);
+    ctx.floor("float:subnormal", 50);
 }
